@@ -4,7 +4,7 @@
 //! set size and at the i64 extremes.
 
 use crate::rng::Rng;
-use dlt_core::filtering::DltFilterConfig;
+use dlt_core::filtering::{DltFilterConfig, ProcessedDltFilterConfig};
 use std::collections::BTreeSet;
 
 pub const POOL: &[&str] = &["A", "B", "CC", "", "DDDD", "é", "ECU1", "APP", "AB  ", "AB", "NONE", "DLT\u{1}"];
@@ -72,4 +72,26 @@ pub fn gen_level(r: &mut Rng) -> Option<u8> {
         1 => Some(r.u8()),
         _ => Some(r.below(8) as u8),
     }
+}
+
+/// A processed configuration as callers may also build it by hand (all fields are public): converted from a
+/// random `DltFilterConfig` by either conversion, and for one in three with a minimum level that no numeric
+/// level converts to (`LogLevel::Invalid(n)`). Only used where the oracle does not depend on what the filter
+/// decides (C03: no crash; C04: consumption).
+pub fn gen_processed(r: &mut Rng) -> (ProcessedDltFilterConfig, String) {
+    let lvl = gen_level(r);
+    let cfg = gen_filter(r, lvl);
+    let mut text = format!("{:?}", cfg);
+    let mut p: ProcessedDltFilterConfig = if r.chance(1, 2) { (&cfg).into() } else { cfg.into() };
+    if r.chance(1, 3) {
+        let n = match r.below(4) {
+            0 => 0,
+            1 => r.range(7, 15) as u8,
+            2 => r.range(1, 6) as u8,
+            _ => r.u8(),
+        };
+        p.min_log_level = Some(dlt_core::dlt::LogLevel::Invalid(n));
+        text.push_str(&format!(" with min_log_level overridden by hand: Some(Invalid({}))", n));
+    }
+    (p, text)
 }
